@@ -13,6 +13,7 @@ Section HookInd.
   Hypothesis HCall : forall n k, P (Call n k).
   Hypothesis HRisk : forall k t, P (Risk k t).
   Hypothesis HUn : forall w, P (Unrecognised w).
+  Hypothesis HOnErr : forall r c, P c -> P (OnErr r c).
   Fixpoint hook_ind' (h : hook) : P h :=
     match h with
     | Seq l => HSeq l ((fix go (l : list hook) : Forall P l :=
@@ -22,6 +23,7 @@ Section HookInd.
     | Call n k => HCall n k
     | Risk k t => HRisk k t
     | Unrecognised w => HUn w
+    | OnErr r c => HOnErr r c (hook_ind' c)
     end.
 End HookInd.
 
@@ -71,6 +73,7 @@ Section SemFacts.
     | Seq l => flat_map unwrapped l
     | ForEach _ b => unwrapped b
     | Wrapped _ => []
+    | OnErr _ c => unwrapped c
     | other => [other]
     end.
 
@@ -88,7 +91,7 @@ Section SemFacts.
      wrapped bodies do *)
   Lemma exec_no_panic h : Forall leaf_safe (unwrapped h) -> forall idx s, not_panic (exec h idx s).
   Proof.
-    induction h as [l IH|i b IH|b IH|n k|k t|w] using hook_ind'; intros Hs idx s.
+    induction h as [l IH|i b IH|b IH|n k|k t|w|r c IH] using hook_ind'; intros Hs idx s.
     - rewrite exec_Seq. revert s. cbn [unwrapped] in Hs. induction l as [|x r IHr]; intro s; cbn; [exact I|].
       cbn in Hs. apply Forall_app in Hs. destruct Hs as [Hx Hr]. inversion IH as [|? ? Px Pr]; subst.
       specialize (Px Hx idx s). destruct (exec x idx s); cbn in Px |- *; try exact I; try contradiction.
@@ -101,12 +104,14 @@ Section SemFacts.
     - cbn in Hs. inversion Hs as [|? ? H1 _]; subst. cbn. exact (H1 idx s).
     - cbn in Hs. inversion Hs as [|? ? H1 _]; subst. cbn. cbn in H1. rewrite H1. exact I.
     - cbn in Hs. inversion Hs as [|? ? H1 _]; subst. destruct H1.
+    - cbn [unwrapped] in Hs. specialize (IH Hs idx s).
+      destruct r; cbn [Hooks.exec]; try exact IH; destruct (exec c idx s); cbn in IH |- *; try exact I; try contradiction.
   Qed.
 
   (* a hook all of whose leaves are wrapped always returns normally *)
   Lemma exec_guarded_total h : unwrapped h = [] -> forall idx s, exists s', exec h idx s = RunOk s'.
   Proof.
-    induction h as [l IH|i b IH|b IH|n k|k t|w] using hook_ind'; intros Hs idx s; try discriminate Hs.
+    induction h as [l IH|i b IH|b IH|n k|k t|w|r c IH] using hook_ind'; intros Hs idx s; try discriminate Hs.
     - rewrite exec_Seq. revert s. cbn [unwrapped] in Hs. induction l as [|x r IHr]; intro s; cbn; [eexists; reflexivity|].
       cbn in Hs. apply app_eq_nil in Hs. destruct Hs as [Hx Hr]. inversion IH as [|? ? Px Pr]; subst.
       destruct (Px Hx idx s) as [s1 E]. rewrite E. apply IHr; assumption.
@@ -114,6 +119,8 @@ Section SemFacts.
       induction n as [|n IHn]; intros s j; cbn; [eexists; reflexivity|].
       destruct (IH Hs (j :: idx) s) as [s1 E]. rewrite E. apply IHn.
     - cbn. eexists; reflexivity.
+    - cbn [unwrapped] in Hs. destruct (IH Hs idx s) as [s1 E]. exists s1.
+      destruct r; cbn [Hooks.exec]; rewrite E; reflexivity.
   Qed.
 
   (* ---- every item of a loop is processed when the body cannot fail (in particular when the
@@ -140,7 +147,126 @@ Section SemFacts.
   (* the body  Seq [Wrapped w]  the translator finds in every per-item sweep *)
   Lemma state_after_wrapped w idx s : state_after (Seq [Wrapped w]) idx s = apply (exec w idx) s.
   Proof. unfold state_after. rewrite exec_Seq. cbn. reflexivity. Qed.
+
+  (* ---- the error-return half: a unit that REPORTS FAILURE after it has written ---- *)
+  Lemma exec_seq_app pre post idx s :
+    exec_seq (pre ++ post) idx s = match exec_seq pre idx s with RunOk s1 => exec_seq post idx s1 | other => other end.
+  Proof. revert s. induction pre as [|x r IH]; intro s; cbn; [reflexivity|]. destruct (exec x idx s); try reflexivity. apply IH. Qed.
+
+  Lemma exec_Wrapped b idx s : exec (Wrapped b) idx s = RunOk (apply (exec b idx) s).
+  Proof. reflexivity. Qed.
+
+  (* a wrapped body that reports failure - wherever, after whatever writes - leaves the store as it was *)
+  Lemma exec_wrapped_err_noop b idx s p code : exec b idx s = RunErr p code -> exec (Wrapped b) idx s = RunOk s.
+  Proof. intro H. rewrite exec_Wrapped. unfold apply. rewrite H. reflexivity. Qed.
+
+  (* the shape found in the table: statements [pre] run (and write), then the call reports failure
+     with its own partial writes [p]; the closure hands the error on: nothing is visible *)
+  Lemma returns_call_err_noop pre post c idx s s1 p code :
+    exec_seq pre idx s = RunOk s1 -> exec c idx s1 = RunErr p code ->
+    exec (Wrapped (Seq (pre ++ OnErr ReturnsCallErr c :: post))) idx s = RunOk s.
+  Proof.
+    intros H1 H2. apply (exec_wrapped_err_noop _ idx s p code).
+    rewrite exec_Seq, exec_seq_app, H1. cbn. rewrite H2. reflexivity.
+  Qed.
+
+  (* the same closure when it DROPS the error: the rest of the body runs on the partial store and
+     everything - the writes before the call, the call's partial writes, the rest - is committed *)
+  Lemma swallows_err_commits pre post c idx s s1 p code s2 :
+    exec_seq pre idx s = RunOk s1 -> exec c idx s1 = RunErr p code -> exec_seq post idx p = RunOk s2 ->
+    exec (Wrapped (Seq (pre ++ OnErr SwallowsErr c :: post))) idx s = RunOk s2.
+  Proof.
+    intros H1 H2 H3. rewrite exec_Wrapped. unfold apply.
+    rewrite exec_Seq, exec_seq_app, H1. cbn. rewrite H2. rewrite H3. reflexivity.
+  Qed.
+
+  (* ---- in general: NO reported failure is ever committed ----
+     [failed] reads, from a store, whether some call has reported failure on it (an instrumented
+     store: think of a ghost flag next to the real state).  A call that returns normally does not
+     touch the flag; a call that reports failure may leave ANY partial store, flag set.  If every
+     [OnErr] of a body hands the error on, a store on which a failure was reported never leaves an
+     ApplyFuncIfNoError: whatever position the failing call has in the body (nested loops,
+     sequences, inner wraps), whatever was written before it and by it. *)
+  Fixpoint hands_on_errors (h : hook) : bool :=
+    match h with
+    | Seq l => forallb hands_on_errors l
+    | ForEach _ b => hands_on_errors b
+    | Wrapped b => hands_on_errors b
+    | OnErr ReturnsCallErr c => hands_on_errors c
+    | OnErr _ _ => false
+    | _ => true
+    end.
+
+  Section NoFailureCommitted.
+    Variable failed : store -> bool.
+    Hypothesis ok_keeps_flag : forall n idx s s', call_sem n idx s = RunOk s' -> failed s' = failed s.
+
+    Lemma ok_result_keeps_flag h : hands_on_errors h = true ->
+      forall idx s s', exec h idx s = RunOk s' -> failed s' = failed s.
+    Proof.
+      induction h as [l IH|i b IH|b IH|n k|k t|w|r c IH] using hook_ind'; intros Hh idx s s' E.
+      - rewrite exec_Seq in E. cbn [hands_on_errors] in Hh. revert s E.
+        induction l as [|x r IHr]; intros s E; cbn in E.
+        + inversion E. reflexivity.
+        + cbn in Hh. apply andb_true_iff in Hh. destruct Hh as [Hx Hr]. inversion IH as [|? ? Px Pr]; subst.
+          destruct (exec x idx s) as [s1| |] eqn:Ex; try discriminate E.
+          rewrite (IHr Pr Hr s1 E). exact (Px Hx idx s s1 Ex).
+      - rewrite exec_ForEach in E. cbn [hands_on_errors] in Hh. revert E.
+        generalize (loop_len i idx s) as n, O as j. intro n. revert s.
+        induction n as [|n IHn]; intros s j E; cbn in E.
+        + inversion E. reflexivity.
+        + destruct (exec b (j :: idx) s) as [s1| |] eqn:Eb; try discriminate E.
+          rewrite (IHn s1 (S j) E). exact (IH Hh (j :: idx) s s1 Eb).
+      - rewrite exec_Wrapped in E. inversion E as [E']. unfold apply.
+        destruct (exec b idx s) as [s1| |] eqn:Eb; try reflexivity.
+        exact (IH Hh idx s s1 Eb).
+      - cbn in E. exact (ok_keeps_flag n idx s s' E).
+      - cbn in E. destruct (risk_sem k t idx s); inversion E. reflexivity.
+      - cbn in E. discriminate E.
+      - destruct r; cbn [hands_on_errors] in Hh; try discriminate Hh. cbn [Hooks.exec] in E. exact (IH Hh idx s s' E).
+    Qed.
+
+    Theorem no_failure_committed b idx s :
+      hands_on_errors b = true -> failed s = false ->
+      exists s', exec (Wrapped b) idx s = RunOk s' /\ failed s' = false.
+    Proof.
+      intros Hb Hs. exists (apply (exec b idx) s). split; [reflexivity|].
+      unfold apply. destruct (exec b idx s) as [s1| |] eqn:Eb; try exact Hs.
+      rewrite (ok_result_keeps_flag b Hb idx s s1 Eb). exact Hs.
+    Qed.
+  End NoFailureCommitted.
 End SemFacts.
+
+(* a closure that drops the error of ONE call is enough to commit a reported failure: the check is
+   load-bearing (stores are (value, failure-flag); the call writes 100 and reports failure) *)
+Lemma swallow_commits_failure :
+  let call_sem := fun (_ : string) (_ : list nat) (s : Z * bool) => RunErr (fst s + 100, true) 1 in
+  (forall n idx s s', call_sem n idx s = RunOk s' -> snd s' = snd s) /\
+  exec call_sem (fun _ _ _ _ => false) (fun _ _ _ => 0%nat)
+       (Wrapped (Seq [OnErr SwallowsErr (Call "liquidationsV2.LiquidateIndividualVault" Writes)])) [] (0, false)
+  = RunOk (100, true).
+Proof. split; [intros; discriminate|reflexivity]. Qed.
+
+(* ---- ApplyFuncIfNoError as read from types/utils.go IS Lib/Atomic.apply ---- *)
+Lemma apply_func_shape_atomic {store} (f : unit_of_work store) (s : store) :
+  run_apply apply_func_shape f s = AppReturned (apply f s).
+Proof. unfold run_apply, apply_func_shape, apply. cbn. destruct (f s); reflexivity. Qed.
+
+(* a variant that writes the cache back BEFORE it looks at the error commits a failed unit *)
+Lemma apply_write_before_check_commits :
+  run_apply [ADeferRecover; ACacheCtx; ARunOnCache; AWrite; AIfErrNil [] [ALog]; AReturnErr]
+            (fun s : Z => RunErr (s + 100) 1) 0 = AppReturned 100.
+Proof. reflexivity. Qed.
+
+(* ... one that runs f on the caller's context has no branch to drop ... *)
+Lemma apply_on_parent_commits :
+  run_apply [ADeferRecover; ARunOnParent; AIfErrNil [] [ALog]; AReturnErr] (fun s : Z => RunErr (s + 100) 1) 0 = AppReturned 100.
+Proof. reflexivity. Qed.
+
+(* ... and one without the deferred recover lets the panic out *)
+Lemma apply_without_recover_halts :
+  run_apply [ACacheCtx; ARunOnCache; AIfErrNil [AWrite] [ALog]; AReturnErr] (fun s : Z => RunPanic (s + 100)) 0 = AppHalt.
+Proof. reflexivity. Qed.
 
 (* ------------------------------------------------------------------------------------------ *)
 (* sweep window                                                                                *)
@@ -340,6 +466,13 @@ Lemma units_wrapped_table :
 Proof. vm_compute. reflexivity. Qed.
 
 Lemma unwrapped_leaves_table : forallb unwrapped_leaf_ok (all_root_leaves hook_table) = true.
+Proof. vm_compute. reflexivity. Qed.
+
+Lemma units_propagate_table :
+  forallb (fun u => unit_propagates_error hook_table u) hook_units = true.
+Proof. vm_compute. reflexivity. Qed.
+
+Lemma wrapped_leaves_propagate_table : forallb wrapped_leaf_propagates (all_root_leaves hook_table) = true.
 Proof. vm_compute. reflexivity. Qed.
 
 Lemma table_closed : roots_covered hook_table && forallb no_unrecognised (all_root_leaves hook_table) = true.
